@@ -86,6 +86,10 @@ def one_move(ctx, name, src_field, src_ty, dst_field, dst_ty):
     ctx.check(not writes, R + '/element-untouched', 'T-CARRY', body.name, 'a field of the constraint is written at %s' % writes, body.site())
 
 
+# what relaxing / restoring means for the feasibility flags is decided by the C05 flag rules
+RELIES_ON = {'C05': ['C05.flags', 'C05.lists', 'C05.rule']}
+
+
 def check(ctx):
     one_move(ctx, 'relax_constraint', 'constraints', 'v1::Constraint', 'removed_constraints', 'v1::RemovedConstraint')
     one_move(ctx, 'restore_constraint', 'removed_constraints', 'v1::RemovedConstraint', 'constraints', 'v1::Constraint')
